@@ -1,10 +1,10 @@
 From Coq Require Import Extraction ExtrOcamlBasic.
 From Texel Require Import Chess.Types Chess.Position Chess.Fen Chess.PositionInst Chess.Spec
-  TextIO.MoveText TextIO.MoveTextP TextIO.UciLine TextIO.FenIx TextIO.MoveTextFacts TextIO.MoveTextTheorems.
+  TextIO.MoveText TextIO.MoveTextP TextIO.UciLine TextIO.FenIx TextIO.MoveTextFacts TextIO.MoveTextTheorems TextIO.PgnScan.
 Extraction Language OCaml.
 Extraction "text_model.ml"
   zk0 readFEN toFEN abs legal_moves_spec pseudo_moves accepted gives_check_spec make_spec in_checkb
   moveToUCIString uciStringToMove moveToString stringToMove
   legalOf gcOf mateOf moveToStringL moveToStringP stringToMoveP
   tokenize uciLine handlePosition emptyMove startPosFEN
-  readFENix legalShapeb.
+  readFENix legalShapeb scan.
